@@ -78,8 +78,12 @@ class World:
         # a one-rule cast schema and two tiny documents with strings that occur nowhere else
         self.s_one = Schema([Rule(["v"], Value.dtype.equal_to(int), cast=dict(INT))])
         self.ones = [{"v": "70001"}, {"v": "70002"}, Data({"v": "70003"})]
+        # a cast mapping supplied by the caller through the Python API, from a type that has a sub-type among the
+        # JSON values (bool is an int): the mapping object itself is part of the world and must stay as given
+        self.user_cast = {int: float}
+        self.s_user = Schema([Rule(["bits", ListValue()], Value.dtype.equal_to(float), cast=self.user_cast)])
         self.rules = self.s_cast.rules + self.s_path.rules
-        self.d1 = {"m": {"x": "3", "flag": "true"}, "a": 1, "b": 1, "lo": 0, "lst": [1, "x", -2], "n": 4,
+        self.d1 = {"m": {"x": "3", "flag": "true"}, "a": 1, "b": 1, "lo": 0, "lst": [1, "x", -2], "n": 4, "bits": [1, True, 2.5, "7", False],
                    "w": {"flag": "3", "x": "true"}, "tbl": [[1, 2], [3, 4], [5, 6]]}
         self.d2 = ["3", {"flag": "FALSE"}, [1, 2], 7, {"flag": "3"}, [3, 4]]
         self.d3 = Data({"a": 2, "b": [1, 2], "m": {"x": "abc"}, "tbl": [[7], [8, 9]]})
@@ -87,7 +91,7 @@ class World:
         self.d4 = Data(["p", "q", "r", {"a": 1}])
 
     def roots(self):
-        return [self.a, self.b, self.ab, self.k, self.part, self.part2, self.mpart, self.pa, self.rows, self.s_cast, self.s_path, self.s_doc, self.s_one, self.ones, self.d4,
+        return [self.a, self.b, self.ab, self.k, self.part, self.part2, self.mpart, self.pa, self.rows, self.s_cast, self.s_path, self.s_doc, self.s_one, self.ones, self.d4, self.s_user, self.user_cast,
                 self.d1, self.d2, self.d3]
 
 
@@ -122,6 +126,7 @@ def menu():
         ops.append(("get rows", di, lambda w, di=di: vsnap((w.rows if di != 1 else DataPath(ListValue(), ListValue())).get_data(w.docs[di], return_paths=(di == 0)))))
         ops.append(("validate cast", di, lambda w, di=di: obs_validated(w.s_cast.validate(w.docs[di]))))
         ops.append(("validate one", di, lambda w, di=di: obs_validated(w.s_one.validate(w.ones[di]))))
+        ops.append(("validate user-cast", di, lambda w, di=di: obs_validated(w.s_user.validate(w.docs[di]))))
         ops.append(("validate path", di, lambda w, di=di: obs_validated(w.s_path.validate(w.docs[di]))))
         for ri in range(9):
             ops.append(("test r%d" % ri, di, lambda w, di=di, ri=ri: obs_ruletest(w.rules[ri].test(w.docs[di]))))
